@@ -30,36 +30,6 @@ TReset ==
 
 TPressure == Is("Pressure") /\ pressure' = TRUE /\ UNCHANGED vars
 
-(* Shared-memory deviations, named (DESIGN.md 3/C08): while memory is short a store keeps evicting beyond what  *)
-(* the limit requires - each further victim still chosen by the rule (an expired entry first, else the least    *)
-(* recently used) -, a value that cannot be allocated is dropped (the key's old entry is gone), and an          *)
-(* allocation failure inside the critical section empties the cache.                                            *)
-RECURSIVE EvictMore(_, _)
-EvictMore(P, O) ==
-    (IF limit = 0 \/ Cardinality(P) < limit THEN { <<P, O>> } ELSE {})
-    \cup (IF P = {} THEN {}
-          ELSE IF ExpiredIn(P) # {}
-               THEN UNION { EvictMore(P \ {k}, Without(O, k)) : k \in ExpiredIn(P) }
-               ELSE EvictMore(P \ {O[Len(O)]}, Without(O, O[Len(O)])))
-
-StoreUnderPressure(k, v, ts, dl) ==
-    LET P0 == present \ {k}
-        O0 == Without(order, k)
-        newlast == [last EXCEPT ![k] = [has |-> TRUE, v |-> v, ts |-> ts \cup {k}, dl |-> dl]]
-    IN /\ last' = newlast
-       /\ res' = [NoRes EXCEPT !.op = "store", !.k = k]
-       /\ UNCHANGED <<now, limit>>
-       /\ \/ \E po \in EvictMore(P0, O0) :                       \* stored, possibly after extra evictions
-                /\ present' = po[1] \cup {k} /\ order' = <<k>> \o po[2]
-                /\ dead' = [j \in Names |-> IF j = k THEN FALSE ELSE IF j \in P0 \ po[1] THEN TRUE ELSE dead[j]]
-          \/ /\ present' = P0 /\ order' = O0                       \* StoreDropped
-             /\ dead' = [dead EXCEPT ![k] = TRUE]
-          \/ \E po \in EvictMore(P0, O0) :                       \* evictions first, then the value still did not fit
-                /\ present' = po[1] /\ order' = po[2]
-                /\ dead' = [j \in Names |-> IF j = k \/ j \in P0 \ po[1] THEN TRUE ELSE dead[j]]
-          \/ /\ present' = {} /\ order' = <<>>                     \* StoreClearedAll
-             /\ dead' = [j \in Names |-> TRUE]
-
 TStore ==
     /\ Is("Store")
     /\ IF pressure THEN StoreUnderPressure(Ev.k, Ev.v, SeqToSet(Ev.ts), Ev.dl)
